@@ -233,6 +233,13 @@ def _smt_point(decls, conds, rng, fns):
             s.add(a)
         # pin a shrinking random subset to sampled values
         pin = rng.sample(names, max(0, len(names) * (4 - attempt) // 6)) if attempt < 5 else []
+        # variables no condition mentions keep their sampled value (z3's model completion would give them 0, which is a
+        # measure-zero corner - e.g. a growth rate of exactly 0 - and not a generic point of the domain)
+        mentioned = set()
+        for c in plain:
+            for i in nf.all_atoms(c.expr):
+                mentioned.add(nf.ATOMS.atoms[i][1])
+        pin = list(dict.fromkeys(pin + [n for n in names if n not in mentioned]))
         for n in pin:
             q = Q(base[n]).limit_denominator(10 ** 6)
             s.add(ids[n] == z3.Q(q.numerator, q.denominator))
@@ -451,7 +458,16 @@ def prove_scenario(scn, *, seed=0, crosscheck=2, max_paths=4000, timeout_ms=1000
                 if len(Ls) != len(Ln):
                     raise RuntimeError("cross-check %s: symbolic shape differs from torch shape" % cs[1])
                 for a, b in zip(Ls, Ln):
-                    va = float(nf.evaluate(nf.as_rf(a), env, fns))
+                    try:
+                        va = float(nf.evaluate(nf.as_rf(a), env, fns))
+                    except (OverflowError, ZeroDivisionError, ValueError):
+                        # Python-float overflow of an intermediate exp at an extreme sample point: redo in extended precision
+                        import mpmath
+                        try:
+                            with mpmath.workdps(60):
+                                va = float(nf.evaluate(nf.as_rf(a), env, fns, mp=mpmath))
+                        except Exception:
+                            continue
                     if not _close(va, float(b), 1e-7, 1e-9):
                         raise RuntimeError("cross-check %s: symbolic shim disagrees with torch at %s: %r vs %r" % (cs[1], env, va, b))
                 for a, b in zip(Ln, Rn):
